@@ -191,8 +191,14 @@ class Repo:
         def rec(body, prefix):
             for st in body:
                 if isinstance(st, (ast.FunctionDef, ast.AsyncFunctionDef)):
-                    if undo(f"{prefix}.{st.name}", st, ref):
-                        self.renames_undone.append(f"{prefix}.{st.name}")
+                    q = f"{prefix}.{st.name}"
+                    if undo(q, st, ref):
+                        self.renames_undone.append(q)
+                    elif q in ref and "sigs" in ref[q]:
+                        from .align import recover_local_renames
+                        mp = recover_local_renames(st, ref[q]["sigs"])
+                        if mp:
+                            self.renames_undone.append(f"{q} (with other edits): " + ", ".join(f"{a}->{b}" for a, b in sorted(mp.items())))
                 elif isinstance(st, ast.ClassDef):
                     rec(st.body, f"{prefix}.{st.name}")
                 elif isinstance(st, (ast.If, ast.Try, ast.With, ast.For, ast.While)):
